@@ -606,6 +606,8 @@ def _arr(it, x):
     if isinstance(x, (I.IObj, I.IDict, str)) or x is None:
         raise SymError("array of objects")
     if isinstance(x, (list, tuple)):
+        if x and all(isinstance(e, I.IObj) for e in x):
+            return NDArr(list(x), (len(x),), "object")       # 1-D object array (np.concatenate of vertex lists)
         x = _deep_list(it, x)
     return npm.asarray(x)
 
